@@ -110,6 +110,7 @@ class Gen:
     def __init__(self, rng):
         self.rng = rng
         self.ub = []               # unbounded-repetition estimate per pool id
+        self.meta_mode = False
         self.kinds = []            # static kind guess per pool id
         self.used = []             # pool ids that were compiled / iterated (bias)
         self.focus = None
@@ -117,6 +118,8 @@ class Gen:
 
     def leaf(self):
         r = self.rng
+        if self.meta_mode and r.random() < 0.7:
+            return self.meta_leaf(), "general"
         k = r.random()
         if k < 0.30:
             return ["lit", r.choice(WORDS)], "lit"
@@ -224,7 +227,7 @@ class Gen:
         """Returns (recipe, kind guess) of a new object built from the pool."""
         r = self.rng
         k = r.random()
-        if not self.kinds or k < 0.18:
+        if not self.kinds or k < (0.6 if self.meta_mode else 0.18):
             return self.leaf()
         a = self.operand()
         if self.focus is not None and r.random() < 0.45:
@@ -314,6 +317,7 @@ class Gen:
 def generate(run_seed, tier):
     wl, sc = stream(run_seed, "workload"), stream(run_seed, "schedule")
     g = Gen(wl)
+    g.meta_mode = wl.random() < 0.15           # a history mostly made of meta patterns (they share module-level parts)
     ntasks = wl.randint(1, 3)
     nbuild = wl.randint(4, 24)
     use_rate = wl.choice([0.15, 0.35, 0.55])
@@ -325,6 +329,9 @@ def generate(run_seed, tier):
         if texts[tid].swapcase() != texts[tid] and wl.random() < 0.7:
             texts[tid + "s"] = texts[tid].swapcase()
     texts["t_empty"] = ""
+    if g.meta_mode:
+        for i, m in enumerate(META_TEXTS):
+            texts["m%02d" % i] = m
     texts["t_meta"] = wl.choice(META_TEXTS)
     texts["t_meta2"] = " ".join(wl.sample([m for m in META_TEXTS if len(m) <= 12], 2))
     tids = sorted(texts)
@@ -397,10 +404,18 @@ def _touches_classes(r):
 def api_fingerprint(obj, texts):
     """Semantic fingerprint through the public API (crosses the compiled/uncompiled switch)."""
     out = []
-    if rexcost.risky(str(obj)):
-        return ["complex pattern: matching probe skipped"]
+    short_only = rexcost.risky(str(obj))
+    if short_only:
+        # potentially explosive pattern: group structure plus matching on very short texts only
+        try:
+            c = re.compile(str(obj), FLAGS)
+            out.append(["complex", c.groups, sorted(c.groupindex.items())])
+        except Exception as e:                           # noqa: BLE001
+            out.append(["complex", type(e).__name__])
     for tid in sorted(texts):
         t = texts[tid]
+        if short_only and len(t) > 8:
+            continue
         try:
             out.append([obj.has_match(t), obj.is_exact_match(t), obj.get_matches_and_pos(t), obj.get_captures(t)])
         except RecursionError:
